@@ -3,7 +3,7 @@
 usage: seed_matrix.py [--all-checks] [seed ids like C01/1 ...]
 Writes /verif/seeded/RESULTS.json (merged) : {"C01/1": {"C01": {"rc":1,"first":"..."}, ...}}"""
 import json, os, subprocess, sys, shutil, glob, re
-SM='/tmp/wt/sm'
+SM=os.environ.get('SEED_SM','/tmp/wt/sm')
 REPO=f'{SM}/repo'; HAR=f'{SM}/harness'; OUT=f'{SM}/out'
 def sh(cmd, **kw):
     return subprocess.run(cmd, shell=True, capture_output=True, text=True, **kw)
@@ -44,7 +44,7 @@ def main():
         resf='/verif/mutants/RESULTS.json'
     else:
         seeds=args or sorted(os.path.relpath(os.path.dirname(p),'/verif/seeded') for p in glob.glob('/verif/seeded/C*/*/patch.diff'))
-        resf='/verif/seeded/RESULTS.json'
+        resf=os.environ.get('SEED_RES','/verif/seeded/RESULTS.json')
     res=json.load(open(resf)) if os.path.exists(resf) else {}
     for s in seeds:
         pid=index[s]['property'] if mut else s.split('/')[0]
